@@ -91,11 +91,45 @@ FUNCS = [
     ("src/op/array.rs", "some", "op_some", ["C14"], "run {some}"),
     ("src/op/array.rs", "none", "op_none", ["C14"], "run {none}"),
     ("src/op/data.rs", "var", "op_var", ["C11"], "Eval.var"),
+    ("src/op/mod.rs", "check_len", "check_len", ["C03"], "Arity.isValidLen"),
+    ("src/op/mod.rs", "op_from_map", "op_from_map", ["C02", "C03"], "check (operator recognition and operand shape)"),
+    ("src/op/data.rs", "missing", "op_missing", ["C12"], "Eval.missing"),
+    ("src/op/mod.rs", "Operator::execute", "Operator_execute", ["C02", "C04"], "execEager"),
+    ("src/op/mod.rs", "LazyOperator::execute", "LazyOperator_execute", ["C02", "C04"], "run (lazy)"),
+    ("src/op/mod.rs", "DataOperator::execute", "DataOperator_execute", ["C02", "C04"], "execData"),
+    ("src/value.rs", "Raw::from_value", "Raw_from_value", ["C02"], "check (literal)"),
+    ("src/value.rs", "Raw::evaluate", "Raw_evaluate", ["C02"], "run (literal)"),
+    ("src/op/mod.rs", "LazyOperation::from_value", "LazyOperation_from_value", ["C02", "C03", "C04"], "check (lazy)"),
+    ("src/op/mod.rs", "LazyOperation::evaluate", "LazyOperation_evaluate", ["C02", "C04", "C05"], "run (lazy)"),
+    ("src/op/mod.rs", "Operation::from_value", "Operation_from_value", ["C02", "C03", "C04"], "check (eager)"),
+    ("src/op/mod.rs", "DataOperation::from_value", "DataOperation_from_value", ["C02", "C03", "C04"], "check (data)"),
+    ("src/value.rs", "Parsed::from_value", "Parsed_from_value", ["C01", "C02", "C03", "C04"], "check"),
+    ("src/value.rs", "Parsed::from_values", "Parsed_from_values", ["C02", "C03", "C04"], "checkList"),
+    ("src/op/mod.rs", "Operation::evaluate", "Operation_evaluate", ["C02", "C04"], "run (eager)"),
+    ("src/op/mod.rs", "DataOperation::evaluate", "DataOperation_evaluate", ["C02", "C04"], "run (data)"),
+    ("src/value.rs", "Parsed::evaluate", "Parsed_evaluate", ["C01", "C02", "C04"], "run"),
+    ("src/lib.rs", "apply", "apply", ["C01", "C02", "C04", "C17"], "apply"),
+    ("src/op/data.rs", "missing_some", "op_missing_some", ["C12"], "Eval.missingSome"),
 ]
 
 # functions that evaluate sub-rules (and may therefore print `log` lines): translated into the model's outcome monad `M`
 # (`Result<T, Error>` is `M T`, `?` is bind, `Parsed::from_value(x)?.evaluate(d)?` is the model's parse-then-evaluate of a sub-rule)
-M_FUNCS = {"log", "if_", "or", "and", "map", "filter", "reduce", "all", "some", "none", "var"}
+M_FUNCS = {"Operation::evaluate", "LazyOperation::evaluate", "DataOperation::evaluate", "Raw::evaluate", "Parsed::evaluate", "Operator::execute", "LazyOperator::execute", "DataOperator::execute", "apply",
+           "missing", "missing_some", "log", "if_", "or", "and", "map", "filter", "reduce", "all", "some", "none", "var"}
+
+# the parse / evaluate layer (the recursive knot): inside these, `Parsed::from_value` and `.evaluate(..)` are the *translated* functions
+KNOT = {"Operation::from_value", "Operation::evaluate", "LazyOperation::from_value", "LazyOperation::evaluate", "DataOperation::from_value", "DataOperation::evaluate",
+        "Raw::from_value", "Raw::evaluate", "Parsed::from_value", "Parsed::from_values", "Parsed::evaluate", "Operator::execute", "LazyOperator::execute", "DataOperator::execute", "apply"}
+# mutually recursive groups: translated as one `mutual` block over a common fuel argument (started above `sizeOf` of the arguments)
+GROUPS = [["Operation::from_value", "DataOperation::from_value", "Parsed::from_value", "Parsed::from_values"],
+          ["Operation::evaluate", "DataOperation::evaluate", "Parsed::evaluate"]]
+# payload type of the constructors of `Parsed`, element type of the `arguments` field, type of the `operator` field
+PAYLOAD = {"Operation": "Operation", "LazyOperation": "LazyOperation", "DataOperation": "DataOperation", "Raw": "Raw"}
+ARG_ELEM = {"Operation": "Parsed", "DataOperation": "Parsed", "LazyOperation": "Value"}
+OPERATOR_OF = {"Operation": "Operator", "LazyOperation": "LazyOperator", "DataOperation": "DataOperator"}
+STRUCT_CTOR = {"Operation": "Rs.POperation.mk", "LazyOperation": "Rs.PLazy.mk", "DataOperation": "Rs.PData.mk", "Raw": "Rs.PRaw.mk"}
+STRUCT_FIELDS = {"Operation": ["operator", "arguments"], "LazyOperation": ["operator", "arguments"], "DataOperation": ["operator", "arguments"], "Raw": ["value"]}
+CALL_GLUE = {"Operator": "Gen.eager_call", "LazyOperator": "Gen.lazy_call", "DataOperator": "Gen.data_call"}
 
 # crate functions that are called from translated code but are not (yet) translated themselves: they are taken from the hand-written model
 MODEL_FNS = {
@@ -144,11 +178,15 @@ def split_generic(ty):
     return head, [a.strip() for a in args]
 
 
+INFO = {}
+GROUP_OF = {}
 MMODE = [False]
+KNOTMODE = [False]
+SELF_TYPE = ["Arity"]
 
 
 def lean_type(ty, generics):
-    ty = ty.strip()
+    ty = ty.replace(">>", "> >").strip()
     ty = re.sub(r"^&\s*('\w+\s+)?(mut\s+)?", "", ty).strip()
     ty = re.sub(r"^'\w+\s+", "", ty)
     if ty.startswith("(") and ty.endswith(")"):
@@ -165,10 +203,14 @@ def lean_type(ty, generics):
         return "(" + " × ".join(lean_type(p, generics) for p in parts) + ")"
     if ty.startswith("[") and ty.endswith("]"):
         return "(List %s)" % lean_type(ty[1:-1], generics)
+    ty = re.sub(r"'\w+\s*", "", ty).strip()           # lifetimes carry no meaning here
+    ty = re.sub(r"\s*::\s*", "::", ty)
     head, args = split_generic(ty)
+    args = [re.sub(r"^&\s*", "", a).strip() for a in args if a.strip()]
     head = head.split("::")[-1]
     simple = {"Value": "Json", "Number": "Num", "f64": "F64", "bool": "Bool", "str": "Str", "String": "Str", "i64": "Int", "i128": "Int", "i32": "Int", "isize": "Int",
-              "usize": "Nat", "u64": "Nat", "u32": "Nat", "u8": "Nat", "char": "Char", "Primitive": "JsOp.Primitive", "PrimitiveHint": "Rs.PrimitiveHint", "KeyType": "Data.Key", "Evaluated": "Json", "Parsed": "Rs.Parsed"}
+              "Ordering": "Ordering", "usize": "Nat", "u64": "Nat", "u32": "Nat", "u8": "Nat", "char": "Char", "Primitive": "JsOp.Primitive", "PrimitiveHint": "Rs.PrimitiveHint", "KeyType": "Data.Key", "Evaluated": "Json", "Parsed": ("Rs.PParsed" if KNOTMODE[0] else "Rs.Parsed"), "Self": SELF_TYPE[0], "NumParams": "Arity",
+              "Operation": "Rs.POperation", "LazyOperation": "Rs.PLazy", "DataOperation": "Rs.PData", "Raw": "Rs.PRaw", "Operator": "Rs.OpRef", "LazyOperator": "Rs.OpRef", "DataOperator": "Rs.OpRef"}
     if not args:
         if head in simple: return simple[head]
         if head in generics: return generics[head]
@@ -177,6 +219,9 @@ def lean_type(ty, generics):
     if head == "Result": return ("(M %s)" if MMODE[0] else "(Option %s)") % lean_type(args[0], generics)
     if head == "Vec": return "(List %s)" % lean_type(args[0], generics)
     if head == "Cow": return lean_type(args[-1], generics)
+    if head == "Map" and len(args) == 2 and "str" in args[0]: return "(Str → Option %s)" % lean_type(args[1], generics)     # a `phf::Map<&str, T>` used through `get` only
+    if head == "OpArgs": return "(%s × (List Json))" % lean_type(args[-1], generics)
+    if head in ("Operation", "LazyOperation", "DataOperation", "Raw", "Parsed", "Evaluated"): return lean_type(head, generics)
     if head == "KeyType": return "Data.Key"
     raise UnsupportedSyntax("type %r" % ty)
 
@@ -227,6 +272,13 @@ def str_lit(text):
     return "\"%s\".toList" % esc
 
 
+def byte_val(text):
+    body = text[2:-1]
+    if body.startswith("\\x"): return int(body[2:], 16)
+    if body.startswith("\\"): return ord({"n": "\n", "t": "\t", "r": "\r", "\\": "\\", "\"": "\"", "'": "'", "0": "\0"}[body[1]])
+    return ord(body)
+
+
 def char_lit(text):
     body = text[1:-1]
     if body.startswith("\\u"):
@@ -244,6 +296,10 @@ def char_lit(text):
 PATH_CONSTS = {
     ("f64", "INFINITY"): "(F64.inf false)", ("f64", "NEG_INFINITY"): "(F64.inf true)", ("f64", "NAN"): "F64.nan",
     ("std", "f64", "INFINITY"): "(F64.inf false)", ("std", "f64", "NEG_INFINITY"): "(F64.inf true)",
+    ("Ordering", "Less"): "Ordering.lt", ("Ordering", "Equal"): "Ordering.eq", ("Ordering", "Greater"): "Ordering.gt",
+    ("cmp", "Ordering", "Less"): "Ordering.lt", ("cmp", "Ordering", "Equal"): "Ordering.eq", ("cmp", "Ordering", "Greater"): "Ordering.gt",
+    ("std", "cmp", "Ordering", "Less"): "Ordering.lt", ("std", "cmp", "Ordering", "Equal"): "Ordering.eq", ("std", "cmp", "Ordering", "Greater"): "Ordering.gt",
+    ("OPERATOR_MAP",): "Rs.eagerOps", ("LAZY_OPERATOR_MAP",): "Rs.lazyOps", ("DATA_OPERATOR_MAP",): "Rs.dataOps",
     ("None",): "none", ("Value", "Null"): "Json.null", ("NULL",): "Json.null", ("crate", "NULL"): "Json.null",
     ("KeyType", "Null"): "Data.Key.null", ("i64", "MAX"): "(9223372036854775807 : Int)", ("i64", "MIN"): "(-9223372036854775808 : Int)", ("usize", "MAX"): "(18446744073709551615 : Nat)",
     ("u64", "MAX"): "(18446744073709551615 : Nat)", ("f64", "EPSILON"): "(F64.fin false (1 * 2 ^ 1022))", ("f64", "MAX"): "(F64.fin false (9007199254740991 * 2 ^ 2045))",
@@ -271,11 +327,11 @@ CRATE_MODULES = {"impure", "js_op", "crate", "super", "self", "op", "value", "lo
 ERASED_METHODS = {"clone", "iter", "into_iter", "as_ref", "as_str", "to_owned", "into", "borrow", "to_vec", "collect", "chars", "as_slice", "copied", "cloned", "ok", "ok_or_else", "ok_or",
                   "as_deref", "by_ref", "map_err"}
 # every other supported method is a function of JL/Rs.lean named after it (typeclass-dispatched where Rust overloads it)
-RS_METHODS = {"evaluate", "to_string", "as_f64", "as_i64", "as_u64", "map", "and_then", "unwrap_or", "unwrap", "map_or", "filter", "or_else", "or", "fold", "all", "any", "zip", "len", "is_empty", "get",
+RS_METHODS = {"is_valid_len", "can_accept_unary", "param_info", "evaluate", "to_string", "as_f64", "as_i64", "as_u64", "map", "and_then", "unwrap_or", "unwrap", "map_or", "filter", "or_else", "or", "fold", "all", "any", "zip", "len", "is_empty", "get",
               "contains", "starts_with", "ends_with", "strip_prefix", "trim_matches", "trim_start_matches", "trim_end_matches", "take", "skip", "chain", "join", "fract", "abs", "unsigned_abs", "try_into",
               "checked_sub", "is_some", "is_none", "is_nan", "is_finite", "is_infinite", "rev", "count", "last", "first", "trunc", "floor", "is_sign_negative", "is_sign_positive", "unwrap_or_default",
               "take_while", "skip_while", "enumerate", "position", "find", "max", "min", "powi", "signum", "is_ascii_digit", "to_digit", "saturating_add", "saturating_sub", "iter_keys", "keys", "values",
-              "parse", "transpose", "checked_add", "saturating_sub", "zip", "is_char_boundary", "unwrap_or_else", "flatten", "copied", "is_null", "is_string", "is_number", "is_array", "is_object", "is_boolean", "as_bool", "as_array", "as_object", "as_null", "eq", "ne", "lt", "le", "gt", "ge", "then", "xor"}
+              "parse", "transpose", "checked_add", "as_bytes", "bytes", "partial_cmp", "cmp", "is_lt", "is_le", "is_gt", "is_ge", "is_eq", "is_ne", "trim", "trim_start", "trim_end", "sum", "saturating_sub", "zip", "is_char_boundary", "unwrap_or_else", "flatten", "copied", "is_null", "is_string", "is_number", "is_array", "is_object", "is_boolean", "as_bool", "as_array", "as_object", "as_null", "eq", "ne", "lt", "le", "gt", "ge", "then", "xor"}
 MUTATING_METHODS = {"insert": "insert_", "next": "next", "pop": "pop", "push": "push", "push_str": "push_str", "extend": "extend", "clear": "clear", "append": "extend", "insert": "insert_"}
 BINOPS = {"==": "Rs.eq", "<": "Rs.lt", "<=": "Rs.le", ">": "Rs.gt", ">=": "Rs.ge", "+": "Rs.add", "-": "Rs.sub", "*": "Rs.mul", "/": "Rs.div", "%": "Rs.rem"}
 
@@ -291,6 +347,11 @@ class Emitter:
         self.loop_ctx = None              # state tuple text of the innermost loop (for break / continue)
         self.mmode = False                # the function lives in the outcome monad M
         self.in_m = True                  # (in M mode) the code being translated itself yields a Result
+        self.impl_type = None             # the type whose `impl` block the function is in
+        self.knot = False                 # the function belongs to the parse / evaluate layer
+        self.vartypes = {}                # local variable -> crate type name, where the translation needs it to pick a method
+        self.mut_all = False              # inside a fold over a unique `&mut` borrow: locals may be appended to
+        self.state_tuple = None           # inside a fold closure that re-binds captured variables: the tuple of those variables
         self.local_ctors = {}             # constructors of enums declared inside the function
         self.file_fns = {}                # other fns of the same source file (translated on demand as auxiliaries)
         self.bound = set()                # every name bound by a pattern anywhere in the function (never mistaken for a crate fn)
@@ -307,7 +368,9 @@ class Emitter:
         k = e[0]
         if k in ("return", "try", "break", "continue", "assign", "for", "while", "loop"): return True
         if k == "mcall" and e[2] == "for_each": return True
-        if k == "mcall" and e[2] in MUTATING_METHODS and e[1][0] == "path" and len(e[1][1]) == 1 and e[1][1][0] in self.muts: return True
+        if k == "mcall" and e[2] == "fold" and self.captured_by_fold(e): return True
+        if k == "mcall" and e[2] == "fold" and self.mutref_fold(e): return True
+        if k == "mcall" and e[2] in MUTATING_METHODS and e[1][0] == "path" and len(e[1][1]) == 1 and (e[1][1][0] in self.muts or (self.mut_all and e[1][1][0] in self.bound)): return True
         if k == "closure" or k == "lit" or k == "path" or k == "macro": return False
         if k == "block":
             return any(self.stmt_effect(s) for s in e[1]) or self.has_effect(e[2])
@@ -363,6 +426,12 @@ class Emitter:
             raise UnsupportedSyntax("pattern path %s" % "::".join(p[1]))
         if k == "ptuplestruct":
             key = tuple(p[1])
+            if key and key[0] == "Self" and self.impl_type: key = (self.impl_type,) + key[1:]
+            if len(key) == 2 and key[0] == "Parsed" and key[1] in PAYLOAD and len(p[2]) == 1:
+                q = p[2][0]
+                while q[0] == "pref": q = q[1]
+                if q[0] == "bind": self.vartypes[q[1]] = PAYLOAD[key[1]]
+                return "(Rs.PParsed.%s %s)" % (key[1], self.pat(p[2][0]))
             if key in (("Evaluated", "New"), ("Evaluated", "Raw")) and len(p[2]) == 1: return self.pat(p[2][0])
             if key in self.local_ctors: return "(%s %s)" % (self.local_ctors[key], " ".join(self.pat(q) for q in p[2]))
             if key in (("Ok",), ("Err",)) and self.mmode: raise UnsupportedSyntax("matching on a Result inside an effectful function")
@@ -380,6 +449,7 @@ class Emitter:
             if e[1] == "bool": return e[2]
             if e[1] == "int": return int_lit(e[2])
             if e[1] == "char": return char_lit(e[2])
+            if e[1] == "byte": return str(byte_val(e[2]))
         raise UnsupportedSyntax("literal pattern %r" % (e,))
 
     def pat_alternatives(self, p):
@@ -402,10 +472,14 @@ class Emitter:
             if kind == "float": return f64_lit(text)
             if kind == "str": return str_lit(text)
             if kind == "char": return char_lit(text)
+            if kind == "byte": return "(%d : Nat)" % byte_val(text)
             if kind == "bool": return text
             raise UnsupportedSyntax("literal kind %s" % kind)
         if k == "path":
             key = tuple(e[1])
+            if key and key[0] == "Self" and self.impl_type: key = (self.impl_type,) + key[1:]
+            if len(key) == 2 and key[0] == "Parsed" and key[1] in PAYLOAD: return "Rs.PParsed." + key[1]
+            if len(key) >= 2 and "::".join(key) in self.fn_names and (self.knot or key[0] not in ("Parsed",)): return self.fn_names["::".join(key)]
             if key in self.local_ctors: return self.local_ctors[key]
             if key in PATH_CONSTS: return PATH_CONSTS[key]
             if key in CTORS: return CTORS[key]
@@ -417,7 +491,7 @@ class Emitter:
                     if key[0] not in self.needed: self.needed.append(key[0])
                     return "Gen.aux_" + key[0]
                 return ident(key[0])
-            if key in STD_CALLS: return STD_CALLS[key]
+            if key in STD_CALLS and not (self.knot and key == ("Parsed", "from_value")): return STD_CALLS[key]
             if all(seg in CRATE_MODULES for seg in key[:-1]):          # a function of the crate named through its module
                 last = key[-1]
                 if last in self.fn_names: return self.fn_names[last]
@@ -426,6 +500,11 @@ class Emitter:
             raise UnsupportedSyntax("path %s" % "::".join(key))
         if k == "call":
             f = e[1]
+            f_ = f
+            while f_[0] == "paren": f_ = f_[1]
+            if f_[0] == "field" and f_[2] == "operator" and self.type_of(f_[1]) in CALL_GLUE:
+                # `(self.operator)(…)`: calling the function a table entry holds
+                return "(%s %s)" % (CALL_GLUE[self.type_of(f_[1])], " ".join([self.V(f_[1])] + [self.V(a) for a in e[2]]))
             if f[0] == "path" and tuple(f[1]) == ("Err",):
                 return "Rs.err" if self.mmode else "none"                  # which error is not modelled
             if f[0] == "path" and tuple(f[1]) == ("Ok",) and self.mmode:
@@ -438,6 +517,8 @@ class Emitter:
             return "(%s %s)" % (fn, " ".join(self.V(a) for a in e[2]))
         if k == "mcall":
             recv, name, args = e[1], e[2], e[3]
+            if name == "next" and not args and not (recv[0] == "path" and len(recv[1]) == 1 and recv[1][0] in self.muts):
+                return "(Rs.first %s)" % self.V(recv)              # the first item of a fresh iterator
             if name in MUTATING_METHODS or name in ("for_each", "sort", "sort_by", "retain", "dedup", "reverse", "swap", "remove", "drain", "truncate", "insert", "entry", "get_mut", "iter_mut", "as_mut"):
                 raise UnsupportedSyntax("mutation through `.%s()` in a position the translation cannot express" % name)
             if name in ("ok_or_else", "ok_or") and self.mmode:
@@ -449,17 +530,38 @@ class Emitter:
                 raise UnsupportedSyntax("map insertion in expression position")
             if name in ERASED_METHODS:
                 return self.V(recv)
+            rty = self.type_of(recv) if self.knot or self.impl_type else None
+            if rty and ("%s::%s" % (rty, name)) in self.fn_names:
+                return "(%s %s)" % (self.fn_names["%s::%s" % (rty, name)], " ".join([self.V(recv)] + [self.V(a) for a in args]))
+            if self.knot and name in ("evaluate", "execute", "from_value"):
+                raise UnsupportedSyntax("cannot tell which `%s` is meant (receiver of unknown type)" % name)
+            # closures over the operands of an operation: their parameter is an operand
+            if name in ("map", "for_each", "all", "any", "filter", "fold") and args and args[-1][0] == "closure":
+                ety = self.elem_type_of(recv)
+                if ety:
+                    for p_ in args[-1][1][-1:]:
+                        q = p_[1] if (isinstance(p_, tuple) and p_ and p_[0] == "typed") else p_
+                        while q[0] == "pref": q = q[1]
+                        if q[0] == "bind": self.vartypes[q[1]] = ety
             if name == "map" and len(args) == 1 and self.is_identity_fn(args[0]):
                 return self.V(recv)
             if name == "fold" and self.mmode and len(args) == 2 and args[1][0] == "closure" and self.returns_result(args[1][2]):
                 # strict left fold whose accumulator is a `Result`: each step sees the *outcome* of the previous one (its log lines are already out)
                 return "(Rs.foldM %s %s %s)" % (self.V(recv), self.V(args[0]), self.V(args[1]))
+            if name not in RS_METHODS and name in self.fn_names and name not in self.bound:
+                # a method of a crate type, translated as the function of its receiver
+                return "(%s %s)" % (self.fn_names[name], " ".join([self.V(recv)] + [self.V(a) for a in args]))
             if name not in RS_METHODS:
                 raise UnsupportedSyntax("method .%s()" % name)
-            return "(Rs.%s %s)" % (name + "_" if name in ("max", "min", "then", "or", "eq", "lt", "le", "gt", "ge", "ne", "xor") else name, " ".join([self.V(recv)] + [self.V(a) for a in args]))
+            return "(Rs.%s %s)" % (name + "_" if name in ("max", "min", "then", "or", "eq", "lt", "le", "gt", "ge", "ne", "xor", "cmp") else name, " ".join([self.V(recv)] + [self.V(a) for a in args]))
         if k == "field":
             if e[2].isdigit():
                 return "(%s).%d" % (self.V(e[1]), int(e[2]) + 1)
+            if e[2] == "op": return "(%s).1" % self.V(e[1])            # OpArgs { op, args }
+            if e[2] == "args": return "(%s).2" % self.V(e[1])
+            if e[2] == "operator": return "(Rs.operator %s)" % self.V(e[1])
+            if e[2] == "arguments": return "(Rs.arguments %s)" % self.V(e[1])
+            if e[2] == "value": return "(Rs.value_ %s)" % self.V(e[1])
             raise UnsupportedSyntax("field access .%s" % e[2])
         if k == "index":
             return "(Rs.index %s %s)" % (self.V(e[1]), self.V(e[2]))
@@ -491,8 +593,9 @@ class Emitter:
         if k == "closure":
             params = e[1]
             names = []
-            saved_muts, saved_rw, saved_loop, saved_in_m = list(self.muts), self.ret_wrap, self.loop_ctx, self.in_m
+            saved_muts, saved_rw, saved_loop, saved_in_m, saved_st = list(self.muts), self.ret_wrap, self.loop_ctx, self.in_m, self.state_tuple
             self.in_m = self.returns_result(e[2])
+            self.state_tuple = None
             # a closure is its own function: captured `let mut` variables are read-only inside it, `return` leaves the closure
             self.muts = []
             self.ret_wrap = lambda v: v
@@ -512,13 +615,22 @@ class Emitter:
             try:
                 body = self.E(e[2], lambda v: v)
             finally:
-                self.muts, self.ret_wrap, self.loop_ctx, self.in_m = saved_muts, saved_rw, saved_loop, saved_in_m
+                self.muts, self.ret_wrap, self.loop_ctx, self.in_m, self.state_tuple = saved_muts, saved_rw, saved_loop, saved_in_m, saved_st
             if not names: return "(fun (_ : Unit) => %s)" % body
             return "(fun %s => %s)" % (" ".join(names), body)
         if k in ("if", "match", "block"):
             return self.E(e, lambda v: v)
         if k == "struct":
             if e[1][0] == "Error": return "()"             # an error value: which error is not modelled
+            sname = e[1][-1] if e[1] != ["Self"] else self.impl_type
+            if sname in STRUCT_CTOR and len(e[1]) == 1:
+                fd = dict(e[2])
+                if set(fd) != set(STRUCT_FIELDS[sname]): raise UnsupportedSyntax("%s literal with other fields" % sname)
+                return "(%s %s)" % (STRUCT_CTOR[sname], " ".join(self.V(fd[f_]) for f_ in STRUCT_FIELDS[sname]))
+            if e[1] == ["OpArgs"]:
+                fd = dict(e[2])
+                if set(fd) != {"op", "args"}: raise UnsupportedSyntax("OpArgs literal")
+                return "(%s, %s)" % (self.V(fd["op"]), self.V(fd["args"]))
             raise UnsupportedSyntax("struct literal %s" % "::".join(e[1]))
         if k == "macro":
             if e[1] == "format": return "()"                # only ever part of an error value
@@ -540,6 +652,10 @@ class Emitter:
             if e[1] is None: return self.ret_wrap("()")
             rw = self.ret_wrap
             return self.E(e[1], lambda v: rw(v))
+        if kind == "try" and self.mmode and self.state_tuple is not None:
+            t = ident(self.fresh("q"))
+            st = self.state_tuple
+            return self.E(e[1], lambda v: "(Rs.tryS %s %s (fun %s => %s))" % (v, st(), t, k(t)))
         if kind == "try" and self.mmode:
             t = ident(self.fresh("q"))
             return self.E(e[1], lambda v: "(Rs.try_ %s (fun %s => %s))" % (v, t, k(t)))
@@ -658,14 +774,24 @@ class Emitter:
             return k2[0]("(match %s with%s)" % (head, "".join(arms)))
         if kind in ("while", "loop"):
             raise UnsupportedSyntax("`%s` loop (only `for` over a finite iterator is translated)" % kind)
+        if kind == "mcall" and e[2] == "fold" and self.mutref_fold(e):
+            return self.fold_over_mutref(e, k)
+        if kind == "mcall" and e[2] == "fold" and self.captured_by_fold(e):
+            return self.fold_with_state(e, k)
         if kind == "assign":
             return self.assign(e, k)
         if kind == "for":
             return self.for_loop(e, k)
-        if kind == "mcall" and e[2] in MUTATING_METHODS and e[1][0] == "path" and len(e[1][1]) == 1 and e[1][1][0] in self.muts:
+        if kind == "mcall" and e[2] in MUTATING_METHODS and e[1][0] == "path" and len(e[1][1]) == 1 and (e[1][1][0] in self.muts or (self.mut_all and e[1][1][0] in self.bound)):
             name = ident(e[1][1][0])
             args = e[3]
-            if any(self.has_effect(a) for a in args): raise UnsupportedSyntax("control flow in the argument of a mutating call")
+            if any(self.has_effect(a) for a in args):
+                # evaluate the arguments first (left to right), then the call on their values
+                def go(i, acc):
+                    if i == len(args):
+                        return self.E(("mcall", e[1], e[2], [("path", ["__VAL__" + a]) for a in acc]), k)
+                    return self.E(args[i], lambda v: go(i + 1, acc + [v]))
+                return go(0, [])
             if e[2] in ("next", "pop"):          # yields a value and advances / shrinks the receiver
                 pr = ident(self.fresh("p"))
                 return "(let %s := (Rs.%s %s)\n (let %s := %s.2\n %s))" % (pr, e[2], name, name, pr, k(pr + ".1"))
@@ -675,8 +801,25 @@ class Emitter:
         # an operator / call with an effectful operand: evaluate operands left to right
         return self.seq_children(e, k)
 
+    def type_of(self, e):
+        """crate type of an expression, where it is evident (variables typed by a pattern / a `from_value` call, `self`, `self.operator`)"""
+        while e[0] in ("paren",) or (e[0] == "unary" and e[1] in ("&", "*")): e = e[1] if e[0] == "paren" else e[2]
+        if e[0] == "path" and len(e[1]) == 1:
+            if e[1][0] == "self": return self.impl_type
+            return self.vartypes.get(e[1][0])
+        if e[0] == "field" and e[2] == "operator":
+            t = self.type_of(e[1])
+            return OPERATOR_OF.get(t)
+        return None
+
+    def elem_type_of(self, e):
+        while e[0] in ("paren",) or (e[0] == "unary" and e[1] in ("&", "*")) or (e[0] == "mcall" and e[2] in ("iter", "into_iter")): e = e[1] if e[0] != "unary" else e[2]
+        if e[0] == "field" and e[2] == "arguments":
+            return ARG_ELEM.get(self.type_of(e[1]))
+        return None
+
     def is_identity_fn(self, a):
-        if a[0] == "path" and tuple(a[1]) in (("Value", "clone"), ("Clone", "clone"), ("String", "clone"), ("Value", "from")): return True
+        if a[0] == "path" and tuple(a[1]) in (("Value", "clone"), ("Clone", "clone"), ("String", "clone"), ("Value", "from"), ("Evaluated", "New"), ("Evaluated", "Raw")): return True
         if a[0] == "closure" and len(a[1]) == 1:
             p = a[1][0]
             while p[0] == "pref": p = p[1]
@@ -749,6 +892,76 @@ class Emitter:
         for c in e:
             if isinstance(c, (tuple, list)): self.assigned(c, acc)
 
+    def captured_by_fold(self, e):
+        """the `let mut` variables of the enclosing scope that the closure of `iter.fold(init, closure)` re-binds"""
+        if not (len(e[3]) == 2 and e[3][1][0] == "closure"): return []
+        acc = set(); self.assigned(e[3][1][2], acc)
+        return [m for m in self.muts if m in acc]
+
+    def mutref_fold(self, e):
+        """`iter.fold(Ok(&mut x), |acc, i| { let r = acc?; r.push_str(..); Ok(r) })`: the accumulator is a unique `&mut` borrow of
+        the variable `x`, handed from step to step; returns x, or None"""
+        if not (len(e[3]) == 2 and e[3][1][0] == "closure"): return None
+        init = e[3][0]
+        while init[0] == "paren": init = init[1]
+        if init[0] == "call" and init[1][0] == "path" and tuple(init[1][1]) == ("Ok",) and len(init[2]) == 1: init = init[2][0]
+        if init[0] == "unary" and init[1] == "&mut" and init[2][0] == "path" and len(init[2][1]) == 1 and init[2][1][0] in self.muts:
+            return init[2][1][0]
+        return None
+
+    def fold_over_mutref(self, e, k):
+        """the borrow is unique, so passing the *value* from step to step and putting the final value back into the variable is the
+        same computation; inside the closure the names bound from the accumulator may be appended to"""
+        x = self.mutref_fold(e)
+        recv, (init, clo) = e[1], e[3]
+        if self.has_effect(recv): raise UnsupportedSyntax("control flow in the operands of a fold")
+        def strip_mut(n):
+            if isinstance(n, tuple):
+                if len(n) == 3 and n[0] == "unary" and n[1] == "&mut" and n[2] == ("path", [x]): return ("path", [x])
+                return tuple(strip_mut(c) for c in n)
+            if isinstance(n, list): return [strip_mut(c) for c in n]
+            return n
+        init2 = strip_mut(init)
+        saved_all = self.mut_all
+        self.mut_all = True          # inside this closure every local may be the unique borrow: `r.push_str(..)` re-binds `r`
+        try:
+            folded = self.V(("mcall", recv, "fold", [init2, clo]))
+        finally:
+            self.mut_all = saved_all
+        r = ident(self.fresh("r"))
+        # the fold's value is the (Result of the) final borrow: the variable now holds that value
+        if self.mmode:
+            return "(Rs.strict %s (fun %s => %s))" % (folded, r, "(let %s := (Rs.settled_value %s %s)\n %s)" % (ident(x), r, ident(x), k(r)))
+        return "(let %s := %s\n (let %s := (Rs.unwrap_or %s %s)\n %s))" % (r, folded, ident(x), r, ident(x), k(r))
+
+    def fold_with_state(self, e, k):
+        """`iter.fold(Ok(init), |acc, x| …)` in logging code whose closure also pushes to / re-binds captured variables:
+        a strict fold over (settled outcome, those variables)"""
+        if not self.mmode: raise UnsupportedSyntax("a fold closure that mutates captured variables outside logging code")
+        recv, (init, clo) = e[1], e[3]
+        if self.has_effect(recv) or self.has_effect(init): raise UnsupportedSyntax("control flow in the operands of a fold")
+        if len(clo[1]) != 2: raise UnsupportedSyntax("fold closure arity")
+        if not self.returns_result(clo[2]): raise UnsupportedSyntax("a fold closure that mutates captured variables and does not yield a Result")
+        state = self.captured_by_fold(e)
+        tup = lambda: ("(" + ", ".join(ident(m) for m in state) + ")") if len(state) != 1 else ident(state[0])
+        st0 = tup()
+        saved = (list(self.muts), self.ret_wrap, self.loop_ctx, self.in_m, self.state_tuple)
+        self.muts = list(state); self.loop_ctx = None; self.in_m = True; self.state_tuple = tup
+        self.ret_wrap = lambda v: "(%s, %s)" % (v, tup())
+        names = []
+        for p in clo[1]:
+            if isinstance(p, tuple) and p and p[0] == "typed": p = p[1]
+            names.append(self.pat(p))
+            p_ = p
+            while p_[0] == "pref": p_ = p_[1]
+            if p_[0] == "bind" and p_[3]: self.muts.append(p_[1])
+        try:
+            body = self.E(clo[2], lambda v: "(%s, %s)" % (v, tup()))
+        finally:
+            self.muts, self.ret_wrap, self.loop_ctx, self.in_m, self.state_tuple = saved
+        r = ident(self.fresh("r"))
+        return "(match (Rs.foldMS %s %s %s (fun %s %s %s => %s)) with\n | (%s, %s) => %s)" % (self.V(recv), self.V(init), st0, names[0], st0, names[1], body, r, st0, k(r))
+
     def for_loop(self, e, k):
         _, pat, it, body = e
         if self.has_effect(it): raise UnsupportedSyntax("control flow in a loop's iterator")
@@ -792,6 +1005,12 @@ class Emitter:
         if kind == "binary":
             if e[1] in ("&&", "||"): raise UnsupportedSyntax("control flow inside a short-circuit operand")
             return self.E(e[2], lambda a: self.E(e[3], lambda b: k(self.V(("binary", e[1], ("path", ["__VAL__" + a]), ("path", ["__VAL__" + b]))))))
+        if kind == "struct":
+            fields = list(e[2])
+            def go(i, acc):
+                if i == len(fields): return k(self.V(("struct", e[1], [(fn_, ("path", ["__VAL__" + v])) for (fn_, _), v in zip(fields, acc)])))
+                return self.E(fields[i][1], lambda v: go(i + 1, acc + [v]))
+            return go(0, [])
         if kind == "tuple":
             items = list(e[1])
             def go(i, acc):
@@ -821,10 +1040,15 @@ class Emitter:
             if els is not None:
                 if not self.diverges(els): raise UnsupportedSyntax("let-else whose else does not return")
                 return self.E(init, lambda v: "(match %s with\n | %s => %s\n | _ => %s)" % (v, self.pat(pat), cont(), self.E(els, lambda v: v)))
+            if pat[0] == "bind":
+                j_ = init
+                while j_[0] in ("paren", "try") or (j_[0] == "unary" and j_[1] in ("&", "*")): j_ = j_[1] if j_[0] != "unary" else j_[2]
+                if j_[0] == "call" and j_[1][0] == "path" and len(j_[1][1]) == 2 and j_[1][1][1] == "from_value" and j_[1][1][0] in ("Parsed", "Operation", "LazyOperation", "DataOperation", "Raw"):
+                    self.vartypes[pat[1]] = j_[1][1][0]
             if self.irrefutable(pat):
                 i_ = init
                 while i_[0] == "paren" or (i_[0] == "unary" and i_[1] in ("&", "*")): i_ = i_[1] if i_[0] == "paren" else i_[2]
-                if self.mmode and self.in_m and i_[0] in ("call", "mcall"):
+                if self.mmode and self.in_m and self.state_tuple is None and i_[0] in ("call", "mcall"):
                     # a `Result` that is computed here and looked at later has had its effects (log lines) here
                     return self.E(init, lambda v: "(Rs.strict %s (fun %s => %s))" % (v, self.pat(pat), cont()))
                 return self.E(init, lambda v: "(let %s := %s\n %s)" % (self.pat(pat), v, cont()))
@@ -896,13 +1120,21 @@ def translate_fn(f, lean_name, fn_names, extra_local=None, file_fns=None, aux_do
     binders = []
     for m in re.finditer(r"\b([A-Z])\b(?:\s*:\s*AsRef\s*<\s*str\s*>)?", sig.split(f["name"], 1)[1] if f["name"] in sig else ""):
         g = m.group(1)
+        if re.search(r"\b%s\s*:\s*CommonOperator\b" % g, sig):
+            generics[g] = "Rs.OpRef"         # an operator: the reference of a table entry (its key and arity)
+            continue
         if "AsRef" in m.group(0):
             generics[g] = "Str"
         else:
             generics[g] = "α_" + g
             binders.append("{α_%s : Type}" % g)
-    mmode = f["name"] in M_FUNCS and not attr and "." not in lean_name
+    qual = ("%s::%s" % (f.get("impl"), f["name"])) if f.get("impl") else f["name"]
+    mmode = (f["name"] in M_FUNCS or qual in M_FUNCS) and not attr and "." not in lean_name
+    knot = qual in KNOT and (qual != "apply" or f.get("impl") is None)
     MMODE[0] = mmode
+    KNOTMODE[0] = knot
+    SELF_TYPE[0] = {"NumParams": "Arity", "Operator": "Rs.OpRef", "LazyOperator": "Rs.OpRef", "DataOperator": "Rs.OpRef", "Operation": "Rs.POperation", "LazyOperation": "Rs.PLazy",
+                    "DataOperation": "Rs.PData", "Raw": "Rs.PRaw", "Parsed": "Rs.PParsed"}.get(f.get("impl"), "Arity")
     full_sig = " ".join(toks[:toks.index("{")]) if "{" in toks else sig
     for m in re.finditer(r"\b([A-Z])\s*:\s*Fn(?:Mut|Once)?\s*\(([^)]*)\)\s*->\s*([\w:<> ]+?)\s*(?:,|$|\{|>)", full_sig):
         g = m.group(1)
@@ -925,7 +1157,7 @@ def translate_fn(f, lean_name, fn_names, extra_local=None, file_fns=None, aux_do
             sub = s[1]
             sub_name = lean_name + "." + sub["name"]
             pre.append(translate_fn(sub, sub_name, fn_names, local_fns, file_fns, aux_done))
-            MMODE[0] = mmode
+            MMODE[0] = mmode; KNOTMODE[0] = knot
             local_fns[sub["name"]] = "Gen." + sub_name
         elif s[0] == "enum":
             ename = "%s.%s" % (lean_name, s[1])
@@ -939,6 +1171,8 @@ def translate_fn(f, lean_name, fn_names, extra_local=None, file_fns=None, aux_do
     em = Emitter(fn_names, local_fns)
     em.mmode = mmode
     em.local_ctors = local_ctors
+    em.impl_type = f.get("impl")
+    em.knot = knot
     em.expand_catch_all = f["name"] in TERMINATION
     em.file_fns = {k: v for k, v in file_fns.items() if k != f["name"]}
     bound_names((f["params"], body), em.bound)
@@ -953,9 +1187,10 @@ def translate_fn(f, lean_name, fn_names, extra_local=None, file_fns=None, aux_do
         if hf is None or "error" in hf: raise UnsupportedSyntax("calls `%s`, which cannot be translated (%s)" % (name, (hf or {}).get("error", "not found")))
         aux_done[name] = True
         pre.append(translate_fn(hf, "aux_" + name, fn_names, None, file_fns, aux_done, attr="@[rs] "))
-        MMODE[0] = mmode
+        MMODE[0] = mmode; KNOTMODE[0] = knot
     uses_self = re.search(r"\bGen\.%s\b" % re.escape(lean_name), term) is not None
     text = "".join(pre)
+    INFO[lean_name] = dict(binders=binders, names=[ident(pat[1]) for pat, _ in f["params"]], types=[lean_type(ty, generics) for _, ty in f["params"]], ret=ret, term=term, pre="".join(pre))
     if uses_self and f["name"] in FUEL:
         term = re.sub(r"\bGen\.%s\b" % re.escape(lean_name), "(Gen.%s.go fuel)" % lean_name, term)
         names = [ident(pat[1]) for pat, _ in f["params"]]
@@ -983,6 +1218,7 @@ def generate(excluded):
     status = {}
     spans = []
     aux_done = {}
+    pieces = []
     for path, rs, ln, props, model in FUNCS:
         if rs in excluded:
             status[rs] = dict(translated=False, reason=excluded[rs], props=props, model=model, file=path)
@@ -998,6 +1234,10 @@ def generate(excluded):
             fn_names[rs] = model
             continue
         f = fs[rs]
+        if rs == "apply":          # lib.rs has several `apply`s (wasm, python); the crate's own one is the free function on two `&Value`s
+            cands = [v for k_, v in fs.items() if v.get("name") == "apply" and "error" not in v and v.get("impl") is None and len(v["params"]) == 2
+                     and all("Value" in ty for _, ty in v["params"]) and v.get("ret") and "Value" in v["ret"] and "Js" not in v["ret"]]
+            if cands: f = cands[0]
         if "error" in f:
             status[rs] = dict(translated=False, reason="syntax outside the translated subset: " + f["error"], props=props, model=model, file=path)
             fn_names[rs] = model
@@ -1006,24 +1246,87 @@ def generate(excluded):
             listed = {r for p_, r, _, _, _ in FUNCS if p_ == path} | set(MODEL_FNS)
             file_fns = {k: v for k, v in fs.items() if k not in listed and "@" not in k}
             txt = translate_fn(f, ln, fn_names, None, file_fns, aux_done)
-            start = sum(x.count("\n") + 1 for x in out) + 1
-            out.append("/-- `%s` (%s) -/" % (rs, path))
-            out.append(txt)
-            end = sum(x.count("\n") + 1 for x in out)
-            spans.append((start, end, rs))
+            pieces.append((rs, ln, path, txt))
             status[rs] = dict(translated=True, props=props, model=model, lean="JL.Gen." + ln, file=path)
         except UnsupportedSyntax as ex:
             status[rs] = dict(translated=False, reason="outside the translated subset: " + str(ex), props=props, model=model, file=path)
             fn_names[rs] = model
+    # mutually recursive groups become one piece: a `mutual` block over a shared fuel argument
+    for grp in GROUPS:
+        members = [p_ for p_ in pieces if p_[0] in grp]
+        if len(members) != len(grp): continue          # not all translated: the remaining ones will be rejected by Lean and fall out
+        lnames = [p_[1] for p_ in members]
+        blocks = []; wrappers = []
+        for rs_, ln_, path_, _ in members:
+            inf = INFO[ln_]
+            term = inf["term"]
+            for other in lnames:
+                term = re.sub(r"\bGen\.%s\b(?!\.)" % re.escape(other), "(Gen.%s.go fuel)" % other, term)
+            blocks.append("def %s.go : Nat → %s → %s\n | 0, %s => default\n | fuel + 1, %s =>\n %s" % (ln_, " → ".join(inf["types"]), inf["ret"], ", ".join("_" for _ in inf["names"]),
+                                                                                                   ", ".join(inf["names"]), term))
+            fuel = "4 * (" + " + ".join("Rs.fuelOf %s" % n_ for n_ in inf["names"]) + ") + 4"
+            wrappers.append("/-- `%s` (%s) -/\ndef %s %s : %s :=\n %s.go (%s) %s\n" % (rs_, path_, ln_, " ".join("(%s : %s)" % (n_, t_) for n_, t_ in zip(inf["names"], inf["types"])), inf["ret"], ln_, fuel, " ".join(inf["names"])))
+        txt = "".join(INFO[ln_]["pre"] for ln_ in lnames) + "mutual\n" + "\n".join(blocks) + "\nend\n\n" + "\n".join(wrappers) + "\n"
+        first = members[0]
+        pieces = [p_ for p_ in pieces if p_[0] not in grp or p_ is first]
+        pieces = [(first[0], first[1], first[2], txt) if p_ is first else p_ for p_ in pieces]
+        GROUP_OF.update({ln_: first[1] for ln_ in lnames})
+    # definitions are written callee first, whatever the order of the source file (a function defined through a later one is fine in Rust)
+    lean_of = {ln: rs for rs, ln, _, _ in pieces}
+    for ln_, rep in GROUP_OF.items():
+        if rep in lean_of: lean_of[ln_] = lean_of[rep]
+    uses_tables = {rs for rs, ln, _, txt in pieces if re.search(r"\bGen\.(eager_call|lazy_call|data_call)\b", txt)}
+    deps = {rs: {lean_of[m] for m in re.findall(r"\bGen\.(\w+)", txt) if m in lean_of and lean_of[m] != rs} for rs, ln, _, txt in pieces}
+    ordered = []; placed = set(); remaining = list(pieces)
+    while remaining:
+        ready = [p_ for p_ in remaining if deps[p_[0]] <= placed]
+        if not ready:      # a cycle between separately listed functions: keep the listed order, Lean will reject what it must
+            ready = [remaining[0]]
+        for p_ in ready:
+            ordered.append(p_); placed.add(p_[0]); remaining.remove(p_)
+    after = set()
+    for rs, ln, path, txt in ordered:
+        if rs in uses_tables or (deps[rs] & after): after.add(rs)
+    def emit(items):
+        for rs, ln, path, txt in items:
+            start = sum(x.count("\n") + 1 for x in out) + 1
+            out.append(("/-- `%s` (%s) -/" if "mutual\n" not in txt else "/- `%s` (%s) and the functions it is mutually recursive with -/") % (rs, path))
+            out.append(txt)
+            end = sum(x.count("\n") + 1 for x in out)
+            spans.append((start, end, rs))
+    emit([p_ for p_ in ordered if p_[0] not in after])
     try:
         start = sum(x.count("\n") + 1 for x in out) + 1
         ttxt = generate_tables(fn_names, status) if "__tables__" not in excluded else ""
         out.append(ttxt)
+        if ttxt: out.append(CALL_GLUE_TEXT)
         spans.append((start, sum(x.count("\n") + 1 for x in out), "__tables__"))
     except (OSError, UnsupportedSyntax) as ex:
         status["table:*"] = dict(translated=False, reason=str(ex), props=["C02", "C03"], model="Tables")
+    emit([p_ for p_ in ordered if p_[0] in after])
     out += ["end Gen", "end JL", ""]
     return "\n".join(out), status, spans
+
+
+CALL_GLUE_TEXT = '''/-- what calling the function held by an entry of `OPERATOR_MAP` means: the entry is found by its key -/
+def eager_call (op : Rs.OpRef) (items : List Json) : M Json :=
+  match Rs.assoc op.key eagerTable with
+  | some f => Rs.ok_or (f items)
+  | none =>
+      match Rs.assoc op.key eagerTableM with
+      | some f => f items
+      | none => M.err
+/-- the same for `LAZY_OPERATOR_MAP` -/
+def lazy_call (op : Rs.OpRef) (data : Json) (items : List Json) : M Json :=
+  match Rs.assoc op.key lazyTable with
+  | some f => f data items
+  | none => M.err
+/-- the same for `DATA_OPERATOR_MAP` -/
+def data_call (op : Rs.OpRef) (data : Json) (items : List Json) : M Json :=
+  match Rs.assoc op.key dataTable with
+  | some f => f data items
+  | none => M.err
+'''
 
 
 def table_entries(src, table):
